@@ -9,9 +9,12 @@ import (
 	"fmt"
 	"net"
 	"net/http"
-	"syscall"
 	"time"
 )
+
+// VerifInternals: the real accessors are in place (overlay/fclient-stub says
+// false when they do not fit the tree under test).
+const VerifInternals = true
 
 // VerifResolver is the (unexported) netResolver interface, exported.
 type VerifResolver interface {
@@ -106,11 +109,6 @@ func (fc *Client) VerifCloseIdle() {
 	for _, t := range dt.transports {
 		t.CloseIdleConnections()
 	}
-}
-
-// VerifAllowDenyControl exposes the dialer control function.
-func VerifAllowDenyControl(allow, deny []string) func(ctx context.Context, network, address string, conn syscall.RawConn) error {
-	return allowDenyNetworksControl(allow, deny)
 }
 
 // VerifTripperTimes reports how long the transport cache keeps an unused
